@@ -11,14 +11,18 @@ PROPS["C06"] = dict(
                       "served.multi", "served.mpalways", "served.perm", "served.first", "served.squash", "served.whole",
                       "served.extra", "served.dupextra", "served.dup", "served.over", "served.trunc", "served.broken",
                       "served.unaligned", "served.short", "served.403", "served.stale403", "served.400", "served.500",
-                      "served.redir.ok", "served.redir.fail"]),
+                      "served.redir.ok", "served.redir.fail",
+                      "conc.cases", "conc.reads_ok", "conc.overlapping_requests", "conc.cache_misses_injected"]),
     ],
     rule="blobfn: random and boundary inputs of regionSet.add (sets built by successive adds + arbitrary slices), superRegion, "
          "bytesWriter.Write (a chunk delivered in arbitrary pieces, one or two passes), parseRange (well-formed, overflowing, "
          "star/backslash, embedded), walkChunks (sizes 0, k*cs, k*cs+-1; unaligned). "
          "blob: random histories of ReadAt/Cache/Evict/Check/Refresh/URL-expiry on blobs of 0..45 bytes (0, 1, k*cs, k*cs+-1), chunk size 1..8, "
          "several prefetch chunk sizes, memory or directory cache, against a scripted registry (23 personalities); every history ends with a "
-         "read of the whole blob; non-trivial = at least one data fetch and one successful non-empty read; distinct = distinct Coq case term",
+         "read of the whole blob; non-trivial = at least one data fetch and one successful non-empty read; distinct = distinct Coq case term. "
+         "One case in eight is concurrent (oracle only, the Coq term is its sequential prefix): 2-7 goroutines reading/prefetching the same hot "
+         "ranges at once (shared single-flight fetches), a registry drawing its personality at random per request, 0-60% of cache lookups "
+         "answered 'miss' (entry lost between fetch and copy), URL expiry in mid-flight, a monitor sampling FetchedSize, a closing whole-blob read",
     assumptions=[
         "int64 arithmetic does not wrap (blob size + chunk size < 2^63); offsets passed to ReadAt are >= 0; chunk size > 0",
         "the chunk cache returns, for a key, exactly the bytes last committed under it or a miss (C11); cache keys sha256(blobURL-b-e) do not collide",
